@@ -1,6 +1,7 @@
 package main
 
 import (
+	"path/filepath"
 	"io"
 	"bytes"
 	"encoding/hex"
@@ -128,21 +129,40 @@ func famC10(g *Gen, o *Out, n int, thorough bool) {
 				o.Line(fmt.Sprintf("xform op=extract dst=reader2 x=%s in=%s", hex.EncodeToString(want), hex.EncodeToString(src)), res2)
 				o.Count("extract/datareader")
 			}
-			for _, dst := range []string{"absent", "larger", "same"} {
+			for _, dst := range []string{"absent", "larger", "same", "samelink", "samerel"} {
 				sp := tmpPath(fmt.Sprintf("c10-src-%d.car", si))
 				dpth := tmpPath(fmt.Sprintf("c10-dst-%d.car", si))
 				os.WriteFile(sp, src, 0o644)
 				os.Remove(dpth)
+				alias := ""
 				switch dst {
 				case "larger":
 					os.WriteFile(dpth, g.bytes(len(src)+50+g.pick(100)), 0o644)
 				case "same":
 					dpth = sp
+				case "samelink": // the same file under another name: a symbolic link to the source
+					os.Symlink(sp, dpth)
+					dst, alias = "same", " alias=link"
+				case "samerel": // the same file spelled differently: through "dir/../"
+					dpth = filepath.Join(filepath.Dir(sp), "x", "..", filepath.Base(sp))
+					os.MkdirAll(filepath.Join(filepath.Dir(sp), "x"), 0o755)
+					if g.pick(2) == 0 {
+						hl := tmpPath(fmt.Sprintf("c10-hard-%d.car", si))
+						os.Remove(hl)
+						if os.Link(sp, hl) == nil { // or a hard link
+							dpth = hl
+							defer os.Remove(hl)
+						}
+					}
+					dst, alias = "same", " alias=spelling"
 				}
 				err := carv2.ExtractV1File(sp, dpth)
 				res := "r=" + classify(err)
 				if err == nil {
-					out, _ := os.ReadFile(dpth)
+					out, _ := os.ReadFile(sp)
+					if alias == "" {
+						out, _ = os.ReadFile(dpth)
+					}
 					res = "r=ok out=" + hexOr(out)
 				}
 				// the payload the source was built from (the spec's expectation), hidden from the model
@@ -151,7 +171,7 @@ func famC10(g *Gen, o *Out, n int, thorough bool) {
 				if si == len(srcs)-1 {
 					want = payloadOf(src)
 				}
-				o.Line(fmt.Sprintf("xform op=extract dst=%s x=%s in=%s", dst, hex.EncodeToString(want), hex.EncodeToString(src)), res)
+				o.Line(fmt.Sprintf("xform op=extract dst=%s%s x=%s in=%s", dst, alias, hex.EncodeToString(want), hex.EncodeToString(src)), res)
 				o.Count("extract/" + dst)
 				os.Remove(sp)
 				os.Remove(dpth)
